@@ -746,6 +746,50 @@ std::vector<H3Index> Gen::cellSet(int maxCells, std::string &tag) {
         tag = "concentric-rings-" + std::to_string(rings) + " ";
         return cells;
     }
+    // footprints that wrap a pole or most of the globe: their outlines are classified clockwise, so
+    // normalizeMultiPolygon meets holes without any outer loop (E_FAILED exits that ordinary disks never take)
+    if (r.chance(0.06)) {
+        int pres = (int)r.below(maxCells >= 2000 ? 6 : 5);
+        int which = (int)r.below(3);  // 0 north, 1 south, 2 both
+        std::set<H3Index> acc;
+        for (int pole = 0; pole < 2; pole++) {
+            if (which != 2 && which != pole) continue;
+            LatLng g;
+            g.lat = pole == 0 ? PI / 2 : -PI / 2;
+            g.lng = 0;
+            H3Index c = 0;
+            REF.latLngToCell(&g, pres, &c);
+            int k = (int)r.range(0, 4);
+            for (auto x : refDisk(c, k))
+                if (k < 2 || !r.chance(0.05)) acc.insert(x);
+        }
+        cells.assign(acc.begin(), acc.end());
+        if (r.chance(0.7)) r.shuffle(cells);
+        tag = std::string("polar-") + (which == 0 ? "north" : which == 1 ? "south" : "both") + " ";
+        return cells;
+    }
+    if (r.chance(0.05)) {
+        int gres = maxCells >= 6000 && r.chance(0.3) ? 2 : (maxCells < 200 ? 0 : (int)r.below(2));
+        std::vector<H3Index> all;
+        for (int b = 0; b < 122; b++) {
+            H3Index bc = RES0[b];
+            if (gres == 0)
+                all.push_back(bc);
+            else
+                for (auto x : refChildren(bc, gres)) all.push_back(x);
+        }
+        int gaps = (int)r.range(1, 4);
+        std::set<H3Index> drop;
+        for (int gI = 0; gI < gaps; gI++) {
+            H3Index c = all[r.below(all.size())];
+            for (auto x : refDisk(c, (int)r.below(gres + 1))) drop.insert(x);
+        }
+        for (auto x : all)
+            if (!drop.count(x)) cells.push_back(x);
+        if (r.chance(0.5)) r.shuffle(cells);
+        tag = "globe-res" + std::to_string(gres) + "-minus-" + std::to_string(gaps) + "-gaps ";
+        return cells;
+    }
     int comps = 1;
     double u = r.unit();
     if (u > 0.6) comps = 2;
@@ -1267,10 +1311,49 @@ bool Gen::catalogueC17(int64_t idx, Op &op) {
     return false;
 }
 
-int64_t Gen::catalogueC16Size() { return 16 * 12 * 3 + 16 * 3; }
+namespace {
+const int64_t C16_CAT_PENT = 16 * 12 * 3, C16_CAT_RINGS = 16 * 3, C16_CAT_POLAR = 6 * 3 * 4, C16_CAT_GLOBE = 8;
+}
+int64_t Gen::catalogueC16Size() { return C16_CAT_PENT + C16_CAT_RINGS + C16_CAT_POLAR + C16_CAT_GLOBE; }
 bool Gen::catalogueC16(int64_t idx, Op &op) {
     op = Op();
     if (idx < 0 || idx >= catalogueC16Size()) return false;
+    if (idx >= C16_CAT_PENT + C16_CAT_RINGS + C16_CAT_POLAR) {
+        // every cell of resolution 0 / 1 except 1..4 single-cell gaps: only clockwise loops remain
+        int j = (int)(idx - C16_CAT_PENT - C16_CAT_RINGS - C16_CAT_POLAR), gres = j / 4, gaps = 1 + j % 4;
+        op.fn = FN_cellsToLinkedMultiPolygon;
+        std::vector<H3Index> all;
+        for (int b = 0; b < 122; b++) {
+            if (gres == 0)
+                all.push_back(RES0[b]);
+            else
+                for (auto x : refChildren(RES0[b], gres)) all.push_back(x);
+        }
+        std::set<H3Index> drop;
+        for (int gI = 0; gI < gaps; gI++) drop.insert(all[(size_t)(17 + 211 * gI) % all.size()]);
+        for (auto x : all)
+            if (!drop.count(x)) op.cells.push_back(x);
+        op.tag = "catalogue:globe-res" + std::to_string(gres) + "-minus-" + std::to_string(gaps) + "-gaps";
+        return true;
+    }
+    if (idx >= C16_CAT_PENT + C16_CAT_RINGS) {
+        // caps around the north pole, the south pole and both, k = 0..3, resolutions 0..5
+        int j = (int)(idx - C16_CAT_PENT - C16_CAT_RINGS), k = j % 4, which = (j / 4) % 3, pres = j / 12;
+        op.fn = FN_cellsToLinkedMultiPolygon;
+        std::set<H3Index> acc;
+        for (int pole = 0; pole < 2; pole++) {
+            if (which != 2 && which != pole) continue;
+            LatLng g;
+            g.lat = pole == 0 ? PI / 2 : -PI / 2;
+            g.lng = 0;
+            H3Index c = 0;
+            REF.latLngToCell(&g, pres, &c);
+            for (auto x : refDisk(c, k)) acc.insert(x);
+        }
+        op.cells.assign(acc.begin(), acc.end());
+        op.tag = std::string("catalogue:polar-") + (which == 0 ? "north" : which == 1 ? "south" : "both");
+        return true;
+    }
     if (idx >= 16 * 12 * 3) {
         // concentric hollow rings (2, 3, 4 levels of nesting) at every resolution
         int j = (int)(idx - 16 * 12 * 3), rings = 2 + j % 3, res = j / 3;
